@@ -852,6 +852,11 @@ class Spell:
                 if v[0] == 'q':
                     isnone = v[1] == 'none'
                     return isnone if isinstance(op, (ast.Is, ast.Eq)) else (not isnone)
+        if isinstance(t, ast.Call) and U(t.func) == 'hasattr' and len(t.args) == 2 and isinstance(t.args[1], ast.Constant) \
+                and t.args[1].value in ('__iter__', '__len__', '__getitem__'):
+            v = self.val(t.args[0])
+            if v[0] == 'proj':
+                return True          # a str is iterable / sized / indexable like a list: this test does not tell them apart
         if isinstance(t, ast.Call) and U(t.func) == 'isinstance' and len(t.args) == 2:
             v = self.val(t.args[0])
             if v[0] == 'proj':
@@ -906,6 +911,9 @@ class Spell:
                 continue
             elif isinstance(s, ast.Assign):
                 continue
+            elif isinstance(s, ast.Return):
+                self.returned = s
+                return
             else:
                 raise AnalysisError('fix_measurements: unsupported statement `%s`' % U(s)[:60])
 
